@@ -21,7 +21,8 @@ def runs(tier, seed, replay):
 
 CONFIG = {
     "runs": runs,
-    "status": "FULL for the plain sampler (Ddnnf::sample_t_wise), PARTIAL for the fitness-guided variant. "
+    "status": "FULL for the plain sampler (Ddnnf::sample_t_wise, every t) and for the fitness-guided sampler (ExtendedDdnnf::sample_t_wise) "
+              "for t <= n; the fitness-guided sampler is REFUTED for t > n (K11); both are REFUTED on models with a repeated child (K36). "
               "FULL (Coq, Props/C09.v): (0) C09_sample_t_wise_covers - for every WFQ circuit C over n >= 1 features with root_count > 0 in "
               "which no node lists a child twice (nodup_children), every t, EVERY order oracle that returns permutations (ord_int: "
               "iteration order of the HashSet of cross interactions per ZippingMerger::merge call; ord_sort: order of equally long samples "
@@ -56,10 +57,20 @@ CONFIG = {
               "of Models C n (complete, in feature order, a model) and every valid interaction (min(t,n) literals over distinct features "
               "of 1..n contained in some model, any order) is contained in some configuration of S. "
               "(3) the abstract steps of the first iteration (C09_cover_step*, C09_cached_call_is_fresh, C09_complete_root) remain. "
-              "PARTIAL: the fitness-guided variant (ExtendedDdnnf::sample_t_wise: AttributeZippingMerger, AttributeSimilarityMerger, "
-              "cover_with_caching_sorted, complete_partial_configs_optimal) is NOT modelled; it is judged by the post-condition only. "
-              "Finding K11: the fitness variant does not cover the min(t,n)-interactions when t exceeds the number of features. "
-              "CORRESPONDENCE: hook H9 (repo_patches/H9-twise-choice-log.patch) records the order decisions of every plain library run "
+              "FITNESS VARIANT (Model/TwiseFitness.v: AttributeZippingMerger - zip over merge_sorted_configs lists, candidate interactions drawn "
+              "from the LITERAL lists with sizes min(len,k) / min(len,t-k), stable sort by objective value, reversed - AttributeSimilarityMerger, "
+              "cover_with_caching_sorted with its two shifting loops, insert_config_sorted, trim_and_resample, complete_partial_configs_optimal "
+              "= calc_best_config of C20; objective values in Z, averages compared by cross-multiplication): "
+              "C09_sample_t_wise_fitness_covers - WFQ, nodup_children, n >= 1, root_count > 0, EVERY objective vector, every t <= n, every trim "
+              "choice and shuffle => ResultWithSample S with twise_ok C n t S = true (node invariant: coverage of the t-interactions only when "
+              "the node has at least t variables, plus: the sample's literal list contains exactly the leaves over its variables incl. every "
+              "literal valid on its own - the cross interactions come from these lists). "
+              "C09_sample_t_wise_fitness_refuted_t_exceeds_n: for t = 3 > n = 2 on (x1|-x1)&(x2|-x2) the model answers [1 2; -1 -2], "
+              "{1,-2} uncovered = finding K11, now a theorem about the model and reproduced by every recorded run of that class. "
+              "Observation (no effect on the property): ExtendedDdnnf::insert_config_sorted compares the pushed configuration with itself "
+              "(sorted_configs[curr_idx] after the push), its loop never runs - it is a plain push; the model says so and replays exactly. "
+              "CORRESPONDENCE: hook H9 (repo_patches/H9-twise-choice-log.patch) records the order decisions of every plain library run and of "
+              "every fitness run through the stream command (there only the trim decision and the shuffle are not determined by the input) "
               "(interaction order per merge call, order after sort_unstable, trim decision, shuffled literals); chk_c09 replays them as the "
               "oracles of the extracted model, which must return exactly the implementation's sample - the same configurations in the same "
               "order (DIFF twise-replay otherwise; a recorded list that is not a permutation of what the model orders, a missing or left-over "
@@ -69,7 +80,8 @@ CONFIG = {
         "oracles of the model: ord_int / ord_sort / ord_shuf must return permutations (hypotheses of the theorem; the replay checks it for every recorded decision); trim_pick is unconstrained - the f64 ranks (unique_coverage / n_decided^t, average) are not modelled, the hook records the decision rank < average",
         "Config.sat_state / sat_state_complete are modelled by one option (marks, flag): (None, true) is unreachable in the Rust (only set_sat_state sets the flag, and it stores Some); Vec index operations on the literal vector are unchecked nth/upd in the model, the invariant CfgOK keeps all literals in 1..n; debug_assert!s are not modelled (all implied by the invariant; the dev-profile runs execute them)",
         "nodup_children (no node lists a child twice) is a hypothesis of C09_sample_t_wise_covers: without it the sampler panics (K36); the loaders do not produce repeated children from d4 output, a hand-written c2d file can",
-        "the fitness-guided variant is judged by the post-condition only (no model); each such run depends on hash-set iteration order and the thread RNG: repeated runs are distinct explorations, not reproductions; a violation is kept as a replay case block (the recorded sample), not as a seed",
+        "fitness variant: objective values are Z in the model (Model/Optimal.v convention); the correspondence feeds integer-valued f64 of small magnitude, for which sums are exact and the comparison of two averages (an f64 division each) agrees with cross-multiplication; a configuration without decided literal (0/0 = NaN in the Rust) is excluded by the invariant; calc_best_config is the C20 model (Iterator::max = last maximum)",
+        "plain runs through the stream command ('t-wise l t' without f) carry no decision log and are judged by the post-condition only; a violation is kept as a replay case block (the recorded sample and decisions), not as a seed",
         "valid interactions are clamped to min(t,n) literals as the plain sampler does; under the literal reading (exactly t literals) coverage is vacuous for t > n",
         "input space: C01 input space (exhaustive functions over 1..3 features (+ a 1/16 subsample over 4 features, thorough) with 0..2 unmentioned features, random CNFs; d4 and c2d) restricted to n <= 14; t in 1..3 quick / 1..5 thorough, clamped to 3 for n > 8 and to 2 for n > 12; fitness vectors integer-valued with ties and negative values",
         "iterator correspondence needs hook H7 (repo_patches/H7-titer.patch: verif_t_indices / verif_t_interactions); without the hook in the ddnnife sources the harness is built against, the c09iter run records 'hook absent' (STAT c09_titer_hook_absent) and only the theorems and the indirect evidence of the sampler runs remain",
